@@ -7,14 +7,17 @@ C-tie:  harness/C14/h.c compiled in the FORCED-COMPAT configuration (c14_cfg.py 
         bits.h whose builtin branch is disabled) against lean/Driver/C14.lean: return values,
         full output buffers (exact-size blocks under ASan), errno.
 three-way: harness/C14/g.c (no libusual header) calls glibc with the same arguments; every
-        compat/glibc difference is LOGGED (coverage.platform_differences, by class), never judged:
-        THE JUDGE IS THE LEAN SPEC/MODEL.
+        compat/glibc difference is LOGGED and must fall into a class of checks/c14_plat.py (each keyed
+        to the exact condition of a documented / POSIX-right / POSIX-unspecified difference, printed
+        with its count as coverage.platform_difference_classes); an unexplained difference is
+        reported.  THE JUDGE OF VALUES IS THE LEAN SPEC/MODEL.
 """
 import itertools
 import os
 import sys
 import vf
 import c14_cfg
+import c14_plat
 
 sys.path.insert(0, os.path.join(vf.VERIF, "extract"))
 import c2lean  # noqa: E402
@@ -636,29 +639,13 @@ def n_class(op):
 
 
 # ------------------------------------------------------------------ platform differences
+# checks/c14_plat.py: every tolerated class is keyed to the exact condition its justification talks
+# about; anything else is UNCLASSIFIED and reported (F41 had been sitting in a per-flag bucket)
 def classify_plat(fn, op, a, b):
-    w = op.split(" ")
-    if fn == "dirname":
-        return "dirname: leading '//' kept by glibc, collapsed to '/' by compat (POSIX allows both)"
-    if fn == "basename":
-        return "basename: >255-byte last component with trailing '/' is cut to the static buffer" if len(w[1]) > 500 \
-            else "basename: other"
-    if fn == "inet_pton":
-        return "inet_pton(AF_INET%s): BSD lineage accepts leading zeros / glibc rejects" % ("6" if w[1] == "6" else "")
-    if fn == "inet_ntop":
-        return "inet_ntop: errno/size corner"
-    if fn == "mbsnrtowcs":
-        return "mbsnrtowcs: incomplete trailing sequence (compat: -1, glibc: consumes into mbstate) / dst==NULL src"
-    if fn == "fnmatch":
-        fl = int(w[3])
-        if fl & 4:
-            pat = b"" if w[1] == "-" else bytes.fromhex(w[1])
-            return "fnmatch with FNM_PERIOD (flags=%d): %s" % (
-                fl, "pattern has an escaped period" if b"\\." in pat else "other")
-        return "fnmatch flags=%d: glibc quirk or documented difference" % fl
-    if fn == "getline":
-        return "getline: differs"
-    return fn + ": other"
+    try:
+        return c14_plat.classify(fn, op, a, b)
+    except (ValueError, IndexError):
+        return "UNCLASSIFIED"
 
 
 def run(ck):
@@ -798,10 +785,13 @@ def run(ck):
     for name in ("copy", "path", "inet", "fmt", "fnmatch", "getline"):
         ck.sample(groups[name][len(groups[name]) // 2])
 
-    # platform differences: logged and classified, never judged
+    # platform differences: the Lean model is the judge of VALUES; every compat/glibc difference must fall
+    # into a class keyed to a documented / POSIX-right / POSIX-unspecified condition (checks/c14_plat.py)
     pd = {}
     examples = {}
     compared = {}
+    unclassified = []
+    seen_pd = set()
     n = 0
     if os.path.exists(plog):
         for line in open(plog, errors="replace"):
@@ -812,14 +802,31 @@ def run(ck):
                 compared[f[1]] = compared.get(f[1], 0) + int(f[2])
                 continue
             n += 1
+            key = tuple(f[:4])
+            if key in seen_pd:
+                continue
+            seen_pd.add(key)
             c = classify_plat(f[0], f[1], f[2] if len(f) > 2 else "", f[3] if len(f) > 3 else "")
             pd[c] = pd.get(c, 0) + 1
+            if c == "UNCLASSIFIED":
+                unclassified.append(f)
             if c not in examples:
                 examples[c] = {"op": f[1][:200], "compat": (f[2] if len(f) > 2 else "")[:80],
                                "glibc": (f[3] if len(f) > 3 else "")[:80]}
     ck.cov["platform_calls_compared"] = compared
-    ck.cov["platform_differences"] = {"total": n, "by_class": pd, "examples": examples,
+    ck.cov["platform_differences"] = {"total": n, "distinct": len(seen_pd), "by_class": pd, "examples": examples,
                                       "note": "compat vs glibc on the same arguments; the judge is the Lean model"}
+    ck.cov["platform_difference_classes"] = {
+        name: {"count": pd.get(name, 0), "kind": kind, "justification": why}
+        for name, (kind, why) in c14_plat.CLASSES.items()}
+    ck.cov["platform_difference_classes"]["UNCLASSIFIED"] = {
+        "count": len(unclassified), "kind": "reported",
+        "justification": "no class explains the difference: reported (kind int), to be looked at"}
+    for f in unclassified[:3]:
+        ck.report("int", {"label": "unexplained-platform-difference", "ops": [f[1]],
+                          "impl": [f[2] if len(f) > 2 else ""], "platform": [f[3] if len(f) > 3 else ""]},
+                  what="compat %s and the platform differ and no documented/POSIX class explains it "
+                       "(the Lean model agrees with compat: check the SPEC)" % f[0])
     if not ck.quick():
         ck.leanchecker(PROP_MODULES)
 
